@@ -281,7 +281,14 @@ def build_ocaml(timeout=900):
             newest = max(os.path.getmtime(x) for x in srcs)
             if min(os.path.getmtime(b) for b in bins) >= newest:
                 return True, ""
-        ok, log = coq_make([])   # the extraction needs every model compiled
+        # the extraction needs the (proof-free) models only, so it still works when a proof is broken
+        models = []
+        for sub in ("Base", "Lib", "Kernel"):
+            d = os.path.join(COQ, "theories", sub)
+            for f in sorted(os.listdir(d)):
+                if f.endswith(".v") and f != "StrFacts.v":
+                    models.append("theories/%s/%s" % (sub, f[:-2] + ".vo"))
+        ok, log = coq_make(["theories/Params.vo"] + models)
         if not ok:
             return False, log[-3000:]
         rc, out, err = run(["sh", os.path.join(ROOT, "ocaml", "build.sh")], timeout=timeout)
